@@ -840,9 +840,18 @@ class Interp:
         env2 = {}
         for p, a in zip(f["params"], args):
             env2[p["id"]] = self.bind_param(p, a, env)
-        for ini in f.get("inits") or []:
-            if "field" in ini:
-                st.f[ini["field"]] = self.copyval(self.ev(ini["init"], env2))
+        # member initialisers run in order with the object under construction as `this` (later members may be
+        # initialised from earlier ones); then the constructor body, if it has one
+        self.this_obj.append(st)
+        try:
+            for ini in f.get("inits") or []:
+                if "field" in ini:
+                    st.f[ini["field"]] = self.copyval(self.ev(ini["init"], env2))
+            body = f.get("body")
+            if body is not None and body.get("body"):
+                self.exec_block_returning(body, env2)
+        finally:
+            self.this_obj.pop()
         return st
 
     def copyval(self, v):
